@@ -1169,7 +1169,14 @@ class Exec(ExprMixin, CallMixin):
                 res = c.fresh(ct.ret, "r_" + ct.fname)
             c.locals["result"] = res
             self.spec_mode = True
+            # postconditions that mention local('x') of the callee: at a call site x is some value (the one the callee's own proof was
+            # about), i.e. a fresh constant of the declared type
+            self._callee_exposed = {n: c.fresh(sorts.parse_ty(t), "cl_" + n) for n, t in (ct.ghost.get("exposed_locals") or {}).items()}
+            forget = (self.cur_contract.ghost.get("forget_post_of") or {}).get(ct.fname) if not sm else None
             for k, e in ct.ensures.items():
+                if forget is not None and (forget == "*" or k in forget):
+                    # the caller's proof deliberately does not rely on this postcondition of the callee (its modifies are still havocked)
+                    continue
                 t = self.truth(self.eval(parse_expr(e)))
                 if gvars:
                     # the callee's post holds for every value of its ghost parameters
@@ -1182,6 +1189,7 @@ class Exec(ExprMixin, CallMixin):
                     if k in ct.ghost.get("inv_except", []):
                         continue
                     c.assume(self.truth(self.eval(parse_expr(e))))
+            self._callee_exposed = None
             return SV(res.ty, res.t)
         finally:
             self.spec_mode = sm
